@@ -325,7 +325,7 @@ def pools():
     nested = [inner, [2.0]]
     return {
         'arrays': [lambda: [], lambda: [1.0], lambda: [1.0, 'a', None], lambda: ['b', 'a', 'b'], lambda: [[1.0], [2.0], 'x'], lambda: [3, 1.0, 2.5, None, 'z', 'a', True]],
-        'objects': [lambda: {}, lambda: {'a': 1.0}, lambda: {'b': [1.0], 'a': {'k': 'v'}}],
+        'objects': [lambda: {}, lambda: {'a': 1.0}, lambda: {'b': [1.0], 'a': {'k': 'v'}}, lambda: {'a': None, 'b': 0.0, 'z': False, 'e': ''}],
         'strings': ['', 'a', 'abcabc', ' Ab c ', 'a.b*c', 'é\U0001F600x', 'a1b2-3', ',/:;<=>?+-[x]{y}(z)|^$\\ "q\'', 'tab\there\nnl%20&=#'],
         'wrong': [None, True, 1.0, 'a', lambda: [1.0], lambda: {'a': 1.0}],
     }
